@@ -1,6 +1,7 @@
 //! C17 — simulated-annealing acceptance follows the Metropolis rule.
 //! Code: mahf::components::replacement::sa::{ExponentialAnnealingAcceptance::{init,execute},Temperature}, mahf::components::mapping::sa::GeometricCooling::{from_params,map,execute}, mahf::components::mapping::mapping
 //! Out: the numeric accuracy of libm's exp (axiomatised: sign/monotonic facts only, argument recorded); populations with more than one individual
+//! Reclimit: mahf::state::(registry::)?StateRegistry::<.*>::find(_mut)?::<.*>=2
 //! Assume: stack in the order the shipped SA template builds it (current below, candidate on top); exp stub axioms: NaN iff NaN, r >= 0, exp(0) = 1, x > 0 => r >= 1, x < 0 => r <= 1, exp(+inf) = +inf, exp(-inf) = 0
 use mahf::components::mapping::sa::GeometricCooling;
 use mahf::components::mapping::Mapping;
